@@ -73,6 +73,9 @@ func VerifH_C17_scanRange() {
 		routes = append(routes, rt)
 	}
 	ip.VerifHost.Routes = routes
+	// the host also has an IPv6 default route of the best metric, through the second interface:
+	// it must play no part in choosing the interface of an IPv4 scan
+	ip.VerifHost.Routes6 = []netlink.Route{{LinkIndex: 2, Priority: 0, Gw: net.ParseIP("fe80::1")}}
 	tb := ndBytes("target", 4)
 	tmask := net.CIDRMask(verifParam("TP", 24), 32)
 	target := &net.IPNet{IP: net.IP(tb).Mask(tmask), Mask: tmask}
